@@ -202,37 +202,50 @@ def successors(term):
 
 
 def postdominators(body):
-    """Immediate post-dominator per block (virtual exit = -1). Cleanup blocks ignored."""
+    """Immediate post-dominator per block (virtual exit = -1), computed on the sub-graph of blocks that
+    can reach a `return`: dead ends (unreachable, diverging calls, unwinding) do not pull joins to the exit."""
     n = len(body['blocks'])
-    succ = {i: [s for s in successors(body['blocks'][i]['term'])] for i in range(n)}
     EXIT = -1
+    succ = {}
     for i in range(n):
-        if not succ[i]:
+        t = body['blocks'][i]['term']
+        if t['k'] == 'return':
             succ[i] = [EXIT]
-    # reverse graph
+        else:
+            succ[i] = list(successors(t))
+    # blocks that can reach EXIT
     pred = {i: [] for i in range(n)}
     pred[EXIT] = []
     for i, ss in succ.items():
         for s in ss:
-            pred.setdefault(s, []).append(i)
-    # iterative set-based (bodies are small)
-    allnodes = set(range(n)) | {EXIT}
-    pdom = {i: set(allnodes) for i in range(n)}
+            pred[s].append(i)
+    live = set()
+    st = [EXIT]
+    while st:
+        x = st.pop()
+        if x in live:
+            continue
+        live.add(x)
+        st.extend(pred[x])
+    allnodes = set(live)
+    pdom = {i: set(allnodes) for i in live}
     pdom[EXIT] = {EXIT}
     changed = True
-    order = list(range(n - 1, -1, -1))
+    order = [i for i in range(n - 1, -1, -1) if i in live]
     while changed:
         changed = False
         for i in order:
-            ss = succ[i]
+            ss = [s for s in succ[i] if s in live]
             new = set.intersection(*[pdom[s] for s in ss]) | {i}
             if new != pdom[i]:
                 pdom[i] = new
                 changed = True
     ipdom = {}
     for i in range(n):
+        if i not in live:
+            ipdom[i] = None
+            continue
         cands = pdom[i] - {i}
-        # immediate = the candidate that is post-dominated by all other candidates
         best = None
         for c in cands:
             if all((d in pdom[c]) for d in cands):
